@@ -2,6 +2,9 @@ pub mod c06;
 pub mod c07;
 pub mod c08;
 pub mod c09;
+pub mod c16;
+pub mod c17;
+pub mod c18;
 pub mod c30;
 pub mod c31;
 pub mod c33;
@@ -9,5 +12,5 @@ pub mod c33;
 use crate::kit::core::Scenario;
 
 pub fn registry() -> Vec<Box<dyn Scenario>> {
-    vec![Box::new(c06::C06), Box::new(c07::C07), Box::new(c08::C08), Box::new(c09::C09), Box::new(c30::C30), Box::new(c31::C31), Box::new(c33::C33)]
+    vec![Box::new(c06::C06), Box::new(c07::C07), Box::new(c08::C08), Box::new(c09::C09), Box::new(c16::C16), Box::new(c17::C17), Box::new(c18::C18), Box::new(c30::C30), Box::new(c31::C31), Box::new(c33::C33)]
 }
